@@ -61,11 +61,6 @@ def obj22(x):
     raise ValueError(f"OBJ value {x!r} outside the supported range")
 
 
-def printed(x, digits=6):
-    """the value a reader can recover from a field with `digits` significant digits"""
-    return float("%.*E" % (digits - 1, x))
-
-
 # ----------------------------------------------------------------------------- table renderers
 def header13(names):
     return " " + "".join("%-13s" % n for n in names[:-1]) + names[-1] + "\n"
@@ -378,10 +373,6 @@ def render_lst(tables, cov_ok=True, funcevals=111, sigdigs=3.3):
 
 
 # ----------------------------------------------------------------------------- linear algebra (reference)
-def matmul(A, B):
-    return [[sum(A[i][k] * B[k][j] for k in range(len(B))) for j in range(len(B[0]))] for i in range(len(A))]
-
-
 def inverse(A):
     """Gauss-Jordan with partial pivoting on a small well-conditioned matrix"""
     n = len(A)
